@@ -422,36 +422,68 @@ def _kernel_local(fi: FuncInfo, e: ast.AST, owner: str) -> bool:
 
 # ---- C06-5 ---------------------------------------------------------------------------------------------------------
 def multi_output_guard(idx: ProgramIndex, rep: Report):
+    """Decided on inlined expressions (local names do not matter): every path that divides a slice bound by the number of outputs
+    per input has, before the division, refuted (a) `bound % outputs` for every divided bound, (b) a step on either slice,
+    (c) a non-slice row/column index."""
+    from ..symbolic import inline, walk_paths
     L = idx.cls("gpytorch.lazy.lazy_evaluated_kernel_tensor", "LazyEvaluatedKernelTensor")
     fi = idx.method(L, "_getitem", own=True)
-    divisions = [n for n in ast.walk(fi.node) if isinstance(n, ast.BinOp) and isinstance(n.op, ast.FloorDiv) and "num_outs_per_in" in src(n.right)]
     inst = "%s:LazyEvaluatedKernelTensor._getitem[multi-output]" % L.module.name
-    if not divisions:
+    row_p, col_p = fi.params[1], fi.params[2]
+
+    def is_outs(e) -> bool:
+        return any(isinstance(x, ast.Attribute) and x.attr == "num_outputs_per_input" for x in ast.walk(e))
+
+    def atoms(e):
+        if isinstance(e, ast.BoolOp):
+            for v in e.values:
+                yield from atoms(v)
+        else:
+            yield e
+
+    npaths, ndiv = 0, 0
+    missing: List[str] = []
+    for path, seq in walk_paths(fi, limit=200000):
+        refuted: List[str] = []   # dumps of atoms known to be false so far (a refuted disjunction refutes every disjunct)
+        divided_here = False
+        for st, env in seq:
+            if not isinstance(st, ast.stmt):
+                if st.kind == "assume" and st.truth is False:
+                    t = inline(st.node, env)
+                    if isinstance(t, ast.BoolOp) and isinstance(t.op, ast.Or):
+                        refuted += [ast.dump(x) for x in atoms(t)]
+                    elif not isinstance(t, ast.BoolOp):
+                        refuted.append(ast.dump(t))
+                continue
+            divs = [n for n in ast.walk(st) if isinstance(n, ast.BinOp) and isinstance(n.op, ast.FloorDiv)]
+            divs = [(n, inline(n, env)) for n in divs]
+            divs = [(n, d) for n, d in divs if is_outs(d.right)]
+            if not divs:
+                continue
+            divided_here = True
+            for n, d in divs:
+                ndiv += 1
+                need = ast.dump(ast.BinOp(left=d.left, op=ast.Mod(), right=d.right))
+                if need not in refuted:
+                    missing.append("`%s` is divided without `%s %% %s` having been refuted" % (src(n.left), src(n.left), src(n.right)))
+            for prm in (row_p, col_p):
+                step = ast.dump(ast.Compare(left=ast.Attribute(value=ast.Name(id=prm, ctx=ast.Load()), attr="step", ctx=ast.Load()), ops=[ast.IsNot()], comparators=[ast.Constant(value=None)]))
+                if step not in refuted:
+                    missing.append("a step on `%s` is not excluded before the division" % prm)
+                notslice = ast.dump(ast.UnaryOp(op=ast.Not(), operand=ast.Call(func=ast.Name(id="isinstance", ctx=ast.Load()), args=[ast.Name(id=prm, ctx=ast.Load()), ast.Name(id="slice", ctx=ast.Load())], keywords=[])))
+                if notslice not in refuted:
+                    missing.append("`%s` is not known to be a slice before the division" % prm)
+        if divided_here:
+            npaths += 1
+    if ndiv == 0:
         rep.add("C06-5", inst, fi.where, False, "no slice division by num_outputs_per_input found (anchor vanished)", {})
         return
-    need_mod = {src(d.left) + " % " + src(d.right) for d in divisions}
-    ok_all = True
-    npaths = 0
-    for p in enumerate_paths(body_without_docstring(fi.node), limit=200000):
-        # does this path execute a division statement?
-        idxs = [i for i, s in enumerate(p.steps) if s.kind == "stmt" and any(d in list(ast.walk(s.node)) for d in divisions)]
-        if not idxs:
-            continue
-        npaths += 1
-        first = min(idxs)
-        false_tests = " || ".join(src(s.node) for s in p.steps[:first] if s.kind == "assume" and s.truth is False)
-        for m in need_mod:
-            if m not in false_tests.replace("(", "").replace(")", ""):
-                ok_all = False
-        if "row_step is not None or col_step is not None" not in false_tests:
-            ok_all = False
-        if "not isinstance(row_index, slice) or not isinstance(col_index, slice)" not in false_tests:
-            ok_all = False
     # defaulting of slice bounds must not conflate 0 with None (a zero stop is an empty slice)
     for n in ast.walk(fi.node):
         if isinstance(n, ast.BoolOp) and isinstance(n.op, ast.Or) and len(n.values) == 2 and isinstance(n.values[0], ast.Attribute) and n.values[0].attr == "stop":
             rep.add("C06-5", "%s:LazyEvaluatedKernelTensor._getitem[%s]" % (L.module.name, norm(n)), "%s:%d" % (fi.module.relpath, n.lineno), False,
                     "`%s` treats a slice stop of 0 like None: for a multi-output kernel K[..., 0:0, :] returns all rows instead of none" % norm(n), {})
+    ok_all = not missing
     rep.add("C06-5", inst, fi.where, ok_all and npaths > 0,
-            "on all %d paths the four divisibility tests, the step test and the slice-type test are false before the slices are divided" % npaths if ok_all and npaths else
-            "a path divides the row/column slices by num_outputs_per_input without the divisibility, step and slice-type guards having been tested", {"paths": npaths, "divisions": sorted(need_mod)})
+            "on all %d paths the divisibility test of every divided bound, the step test and the slice-type test are refuted before the slices are divided" % npaths if ok_all and npaths else
+            "a path divides the row/column slices by num_outputs_per_input without the guards: %s" % "; ".join(sorted(set(missing))[:3]), {"paths": npaths, "divisions": ndiv})
